@@ -116,12 +116,13 @@ theorem Net.recvSlots_length_of_find (n : Net) {q p : Nat} {e} (hf : (n.ifs q).f
   rw [Net.recvSlots, get_of_find_some hf, slots_length]
 
 /-- the calls made for the completed receive from `p` -/
-theorem Net.round_term {Val} (n : Net) (hg : n.Good) (gat : Nat → Nat → Nat → Val) (junk : Val) {q : Nat} (hq : q < n.P)
+theorem Net.round_term {Val} (n : Net) (hg : n.Good) (gat : Nat → Nat → Nat → Val) (init : List Val) {q : Nat} (hq : q < n.P)
+    (hinit : (n.comm q).recvElems true ≤ init.length)
     (arr : List Nat) (hnd : arr.Nodup) (harr : ∀ p ∈ arr, p < n.P) {p : Nat} (hp : p ∈ arr) :
     (match (n.comm q).msg p with
       | some m => scatterCalls ((n.comm q).csRecv true) (recvSide true ((n.comm q).ifs.get p))
           (((n.comm q).recvBufAfter true (fun p => (n.comm p).msgTo true ((n.comm p).sendBuf true (gat p)) q)
-              (List.replicate ((n.comm q).recvElems true) junk) arr).drop (recvMsgInfo true m).start)
+              init arr).drop (recvMsgInfo true m).start)
       | none => []) = n.pairCalls gat p q := by
   have hinc : ∀ a, (n.comm a).msgTo true ((n.comm a).sendBuf true (gat a)) q =
       (n.sendSlots a q).map fun s => gat a s.1 s.2 := fun a => n.msgTo_eq hg (gat a) a q
@@ -181,17 +182,20 @@ theorem Net.round_term {Val} (n : Net) (hg : n.Good) (gat : Nat → Nat → Nat 
         rcases Nat.lt_or_gt_of_ne hne with h | h
         · left; exact pre_mono _ (n.ifs q) (hg.keys q) h hfa ⟨eb, hfb⟩
         · right; exact pre_mono _ (n.ifs q) (hg.keys q) h hfb ⟨ea, hfa⟩
-      have hin : ∀ w ∈ ws, w.1 + w.2.length ≤ (List.replicate ((n.comm q).recvElems true) junk).length := by
+      have hin : ∀ w ∈ ws, w.1 + w.2.length ≤ init.length := by
         intro w hw'
         rw [hws, List.mem_filterMap] at hw'
         obtain ⟨a, ha, hwa⟩ := hw'
         simp only [Option.map_eq_some_iff] at hwa
         obtain ⟨ma, hma, rfl⟩ := hwa
         obtain ⟨ea, hfa, hsa, hla⟩ := hw a ha ma hma
-        simp only [hsa, hla, List.length_replicate]
+        simp only [hsa, hla]
         have := pre_le_total (fun e => sizeCalc (n.csT q) e.2.2) (n.ifs q) hfa
-        simpa only [Comm.recvElems, Comm.sendElems, Net.comm, buildComm, Bool.not_true, Bool.false_eq_true, if_false]
-          using this
+        have h2 : pre (fun e => sizeCalc (n.csT q) e.2.2) (n.ifs q) a + sizeCalc (n.csT q) ea.2.2 ≤
+            (n.comm q).recvElems true := by
+          simpa only [Comm.recvElems, Comm.sendElems, Net.comm, buildComm, Bool.not_true, Bool.false_eq_true, if_false]
+            using this
+        omega
       have := read_writes ws _ hdisj hin _ hmem
       simp only at this
       rw [n.msgTo_length hg (gat p) (harr p hp) hq] at this
@@ -201,13 +205,19 @@ theorem Net.round_term {Val} (n : Net) (hg : n.Good) (gat : Nat → Nat → Nat 
 
 /-- one forward `sendRecv` seen from `q`: neighbour by neighbour, in completion order, the values the neighbour
     gathered for `q` go to the own receive slots for that neighbour -/
-theorem Net.roundCallsAt_eq {Val} (n : Net) (hg : n.Good) (gat : Nat → Nat → Nat → Val) (junk : Val) {q : Nat} (hq : q < n.P)
+theorem Net.roundCallsFrom_eq {Val} (n : Net) (hg : n.Good) (gat : Nat → Nat → Nat → Val) (init : List Val) {q : Nat}
+    (hq : q < n.P) (hinit : (n.comm q).recvElems true ≤ init.length)
     (arr order : List Nat) (hnd : arr.Nodup) (harr : ∀ p ∈ arr, p < n.P) (hsub : ∀ p ∈ order, p ∈ arr) :
-    roundCallsAt n.comm true gat junk q arr order = order.flatMap fun p => n.pairCalls gat p q := by
-  simp only [roundCallsAt, Comm.roundCalls]
+    roundCallsFrom n.comm true gat init q arr order = order.flatMap fun p => n.pairCalls gat p q := by
+  simp only [roundCallsFrom, Comm.roundCalls]
   apply flatMap_congr_mem
   intro p hp
-  exact n.round_term hg gat junk hq arr hnd harr (hsub p hp)
+  exact n.round_term hg gat init hq hinit arr hnd harr (hsub p hp)
+
+theorem Net.roundCallsAt_eq {Val} (n : Net) (hg : n.Good) (gat : Nat → Nat → Nat → Val) (junk : Val) {q : Nat} (hq : q < n.P)
+    (arr order : List Nat) (hnd : arr.Nodup) (harr : ∀ p ∈ arr, p < n.P) (hsub : ∀ p ∈ order, p ∈ arr) :
+    roundCallsAt n.comm true gat junk q arr order = order.flatMap fun p => n.pairCalls gat p q :=
+  n.roundCallsFrom_eq hg gat _ hq (by simp) arr order hnd harr hsub
 
 /-! ### backward = forward on the swapped communicators -/
 
@@ -278,9 +288,13 @@ theorem Comm.swap_roundCalls {Val} (c : Comm) (buf : List Val) (order : List Nat
     simp only [Comm.swap, swapIf_get]
 
 /-- a backward communication is a forward communication of the communicators with the two sides exchanged -/
+theorem roundCallsFrom_swap {Val} (comm : Nat → Comm) (gat : Nat → Nat → Nat → Val) (init : List Val) (q : Nat)
+    (arr order : List Nat) :
+    roundCallsFrom comm false gat init q arr order = roundCallsFrom (fun p => (comm p).swap) true gat init q arr order := by
+  simp only [roundCallsFrom, Comm.swap_roundCalls, Comm.swap_recvBufAfter, Comm.swap_msgTo, Comm.swap_sendBuf]
+
 theorem roundCallsAt_swap {Val} (comm : Nat → Comm) (gat : Nat → Nat → Nat → Val) (junk : Val) (q : Nat) (arr order : List Nat) :
     roundCallsAt comm false gat junk q arr order = roundCallsAt (fun p => (comm p).swap) true gat junk q arr order := by
-  simp only [roundCallsAt, Comm.swap_roundCalls, Comm.swap_recvBufAfter, Comm.swap_recvElems, Comm.swap_msgTo,
-    Comm.swap_sendBuf]
+  simp only [roundCallsAt, roundCallsFrom_swap, Comm.swap_recvElems]
 
 end DV.C05
